@@ -55,6 +55,29 @@ theorem src_step (st : CGState K V) (p : V) :
        let α := M.Src.cg_alpha ops Hf rr p hp
        { x := M.Src.cg_solution ops Hf st.x α p, r := M.Src.cg_residual ops Hf st.r α hp, p := p,
          rrPrev := some (M.Src.cg_rr_previous ops Hf rr) }) := M.SrcL.cg_step_eq B H st p
+/-- **one whole iteration of `cg`, written with the source formulas only**: the exits (exactly zero residual, tolerance), the direction
+update (skipped in the first iteration), `H p`, the step length, the new solution and residual, the record handed to the callback -/
+theorem src_iteration (tol2 : Option K) (fuel k : Nat) (st : CGState K V) (tr : List (CGTrace V)) :
+    cgLoop (M.modOps' B) (fun v => H v) tol2 (fuel + 1) k st tr =
+      (let ops := M.modOps' B
+       let Hf := fun v => H v
+       let rr := M.Src.cg_rr ops Hf st.r
+       if rr = 0 then .ok st.x "zero-residual" tr.reverse
+       else if M.tolHit tol2 rr then .ok st.x "tolerance" tr.reverse
+       else match (match st.rrPrev with
+          | none => some st.p
+          | some prev => if prev = 0 then none
+              else some (M.Src.cg_direction ops Hf st.r (M.Src.cg_beta ops Hf rr prev) st.p)) with
+        | none => .nan k tr.reverse
+        | some p =>
+          let hp := M.Src.cg_hp ops Hf p
+          if ops.dot p hp = 0 then .nan k tr.reverse
+          else
+            let α := M.Src.cg_alpha ops Hf rr p hp
+            let x' := M.Src.cg_solution ops Hf st.x α p
+            let r' := M.Src.cg_residual ops Hf st.r α hp
+            cgLoop ops Hf tol2 fuel (k + 1) { x := x', r := r', p := p, rrPrev := some (M.Src.cg_rr_previous ops Hf rr) }
+              ({ x := x', r := r', k := k } :: tr)) := M.SrcL.cg_iteration_eq B H tol2 fuel k st tr
 /-- the model's operations are the ones of this file (so `src_*` speak about the same loop as the theorems below) -/
 theorem modOps_eq : M.modOps' B = modOps B := rfl
 
